@@ -60,6 +60,16 @@ struct Registry {
         }
         return true;
     }
+    // the payload of a live object only changes through its own special members (which call set_value): a different payload at a live
+    // address means the bytes were copied or swapped behind the object's back (bytewise relocation of a non-trivial object)
+    void check_bytes(void const* p, int v)
+    {
+        auto it = live.find(p);
+        if (it != live.end() && it->second.value != v) {
+            violation("bytes-changed-without-a-special-member", p, "the object's payload differs from what its own constructors/assignments stored (bytewise copy/swap of a non-trivial object)");
+            it->second.value = v;
+        }
+    }
     void set_value(void const* p, int v)
     {
         auto it = live.find(p);
@@ -146,7 +156,7 @@ struct Tracked<kCopyMove, Family> {
     }
     int value() const noexcept
     {
-        registry().check_live(this, "use-not-live", "value read from an object that is not live");
+        if (registry().check_live(this, "use-not-live", "value read from an object that is not live")) { registry().check_bytes(this, v); }
         return v;
     }
     friend bool operator==(Tracked const& a, Tracked const& b) noexcept { return a.value() == b.value(); }
@@ -194,7 +204,7 @@ struct Tracked<kMoveOnly, Family> {
     }
     int value() const noexcept
     {
-        registry().check_live(this, "use-not-live", "value read from an object that is not live");
+        if (registry().check_live(this, "use-not-live", "value read from an object that is not live")) { registry().check_bytes(this, v); }
         return v;
     }
     friend bool operator==(Tracked const& a, Tracked const& b) noexcept { return a.value() == b.value(); }
@@ -233,7 +243,7 @@ struct Tracked<kCopyOnly, Family> {
     }
     int value() const noexcept
     {
-        registry().check_live(this, "use-not-live", "value read from an object that is not live");
+        if (registry().check_live(this, "use-not-live", "value read from an object that is not live")) { registry().check_bytes(this, v); }
         return v;
     }
     friend bool operator==(Tracked const& a, Tracked const& b) noexcept { return a.value() == b.value(); }
